@@ -29,7 +29,7 @@ RULE = ('case = (scenario, fault kind, fault point[, recv size]); distinct = sam
         'lies strictly inside the conversation (not before its first byte)')
 ASSUMPTIONS = ['ARTIM = 10 s as in the library; peer silence is modelled by advancing the virtual clock by 11 s']
 REQUIRED = ['oracle.disconnect-ends-idle-closed', 'oracle.silence', 'oracle.stop-returns', 'oracle.user-told',
-            'oracle.kill-returns']
+            'oracle.kill-returns', 'oracle.stale-user-primitive']
 
 
 def exhaustive(tier):
